@@ -186,7 +186,13 @@ func c02Ops() []c02Op {
 			st.cExists = true
 			p := data.Point{Type: "description", Text: "node C made at " + s, Time: g.tick()}
 			st.accept("C/description/0", p)
-			return true, client.SendNode(side(g, s).Nc, data.NodeEdge{ID: "C", Parent: "devD", Type: "vtest", Points: data.Points{p}}, "user"+s)
+			// the new node also holds a deleted array entry (point-level tombstone) and a point with a data payload:
+			// every field has to arrive on the other side
+			gone := data.Point{Type: "tag", Key: "1", Text: "removed entry", Tombstone: 1, Time: g.tick()}
+			blob := data.Point{Type: "blob", Data: []byte{0, 1, 2, 0xff}, Time: g.tick()}
+			st.accept("C/tag/1", gone)
+			st.accept("C/blob/0", blob)
+			return true, client.SendNode(side(g, s).Nc, data.NodeEdge{ID: "C", Parent: "devD", Type: "vtest", Points: data.Points{p, gone, blob}}, "user"+s)
 		}})
 	}
 	for _, del := range []bool{true, false} {
